@@ -509,6 +509,20 @@ func TestGrid(t *testing.T) {
 			}
 		}
 	}
+	// bodies around every power of two, counted for the body alone and for header+body
+	for k := uint(5); k <= 12; k++ {
+		for _, n := range []int{1<<k - 33, 1<<k - 32, 1<<k - 31, 1<<k - 1, 1 << k, 1<<k + 1} {
+			if n < 0 {
+				continue
+			}
+			b := make([]byte, n)
+			for i := range b {
+				b[i] = byte(vk.Mix(uint64(n)+uint64(i/8)) >> (8 * uint(i%8)))
+			}
+			f := pbm.FrameJ{Kind: "raw", Payload: b}
+			checker.Run(t, Case{Op: "frame", Frame: &f, PointKey: vk.U64(n), Class: "grid-pow2-body"})
+		}
+	}
 	// one frame of several MiB: its fault points include every power-of-two multiple (piece boundaries)
 	big := make([]byte, 3<<20+4096+17)
 	for i := range big {
